@@ -15,14 +15,15 @@
      sequence) also the number of nodes stored after a FAILED run - the garbage it leaves
      behind - is predicted; with several threads the store must be full after a failure.
      [bdd_ok_b] (the hypothesis of the theorems) must hold on every such snapshot.
-   - C14x (ownership): with one thread, for every NOT / binary operator / ITE that the
-     bounded model predicts to FAIL, the extracted ownership model of coq/Mgr/OomOwn.v
-     (tokens, guards, reference counts; guard placement of the code) is run on the same
-     snapshot ([own_inv_b] = the hypothesis CInv of the C14_own_* theorems must hold on it):
-     it must fail too, own exactly the harness's handles afterwards (BALANCE), and the
-     table it predicts - every stored node (the garbage of the failed run included) with
-     its level, its children up to renaming and its REFERENCE COUNT - must be the table
-     the real manager shows after the failed operation. *)
+   - C14x (ownership): for every such NOT / binary operator / ITE (failing ones: with one
+     thread only, the garbage depends on the interleaving otherwise) the extracted ownership
+     model of coq/Mgr/OomOwn.v (tokens, guards, reference counts; guard placement of the
+     code) is run on the same snapshot ([own_inv_b] = the hypothesis CInv of the C14_own_*
+     theorems must hold on it): same outcome as the bounded model; afterwards (a result is
+     stored in its slot, whose old function is dropped: [own_put]) it must own exactly the
+     harness's handles (BALANCE), and the table it predicts - every stored node (the
+     garbage of a failed run included) with its level, its children up to renaming and its
+     REFERENCE COUNT - must be the table the real manager shows after the operation. *)
 open Conv
 
 (* ---- trace parsing (self-contained copies of the few helpers of ocaml/dd_types.ml that this
@@ -197,17 +198,17 @@ let () =
                       | _ -> stat "unresolved" 1);
                     (match p.pown with
                      | Some (own_snap, own_toks) when not !failed ->
-                       stat "own_predictions" 1;
+                       stat (if p.pcode = 1 then "own_predictions" else "own_predictions_ok") 1;
                        let tbl = Hashtbl.create 64 in
                        let exp = profile tbl own_snap and got = profile tbl ps.snap in
                        if own_toks <> int_of_nat (Model.snap_tokens ps.snap) then
                          fail p.pstep "prop"
-                           (Printf.sprintf "%s at capacity %d failed: the ownership model owns %d edges afterwards, the harness holds %d handles"
-                              p.pwhat cap own_toks (int_of_nat (Model.snap_tokens ps.snap)))
+                           (Printf.sprintf "%s at capacity %d (%s): the ownership model owns %d edges afterwards, the harness holds %d handles"
+                              p.pwhat cap (if p.pcode = 1 then "failed" else "result stored") own_toks (int_of_nat (Model.snap_tokens ps.snap)))
                        else if exp <> got then
                          fail p.pstep "prop"
-                           (Printf.sprintf "%s at capacity %d failed with out-of-memory: stored nodes with reference counts afterwards (node:count) %s, the ownership model (every acquired edge released) says %s"
-                              p.pwhat cap (show_profile got) (show_profile exp))
+                           (Printf.sprintf "%s at capacity %d %s: stored nodes with reference counts afterwards (node:count) %s, the ownership model (every acquired edge released) says %s"
+                              p.pwhat cap (if p.pcode = 1 then "failed with out-of-memory" else "returned a result") (show_profile got) (show_profile exp))
                      | _ -> ())
                   | None -> ());
                  if predictable then (
@@ -275,7 +276,7 @@ let () =
                             | Some rr -> value_table { ps with snap = s' } { Model.eref = rr; Model.etag = false }
                             | None -> None in
                           let own =
-                            if code <> 1 || threads > 1 then None
+                            if code = 1 && threads > 1 then None      (* the garbage depends on the interleaving *)
                             else
                               let o =
                                 match toks with
@@ -297,15 +298,22 @@ let () =
                                 if not (Model.own_inv_b ps.snap) then (
                                   fail i "prop" "own_inv_b false on the snapshot before the operation (reference counts not exact: hypothesis CInv of the C14_own theorems)";
                                   None)
-                                else if int_of_nat (Model.ores_code o) <> 1 then (
+                                else if int_of_nat (Model.ores_code o) <> code then (
                                   fail i "corr"
-                                    (Printf.sprintf "%s at capacity %d: the bounded model runs out of memory, the ownership model has outcome %d"
-                                       ops cap (int_of_nat (Model.ores_code o)));
+                                    (Printf.sprintf "%s at capacity %d: the bounded model has outcome %d, the ownership model has outcome %d"
+                                       ops cap code (int_of_nat (Model.ores_code o)));
                                   None)
                                 else
-                                  match Model.own_snap ps.snap o, Model.own_tokens o with
-                                  | Some s2, Some t2 -> Some (s2, int_of_nat t2)
-                                  | _ -> None in
+                                  (* a result is stored in the destination slot, whose old function is dropped *)
+                                  let o = Model.own_put ps.snap o (match List.assoc_opt dst ps.handles with
+                                                                   | Some e -> Some e.Model.eref | None -> None) in
+                                  if int_of_nat (Model.ores_code o) = 2 then (
+                                    fail i "corr" (Printf.sprintf "%s: the ownership model cannot drop the old content of the destination slot" ops);
+                                    None)
+                                  else
+                                    match Model.own_snap ps.snap o, Model.own_tokens o with
+                                    | Some s2, Some t2 -> Some (s2, int_of_nat t2)
+                                    | _ -> None in
                           pending := Some { pcode = code; pcount = cnt; pfull = max cap ps.listed; ptable = tab; pwhat = ops;
                                             pdst = dst; pstep = i; pown = own })))
         c.lines;
